@@ -347,14 +347,21 @@ type concScen struct {
 	Name    string
 	Copies  [][2]string // graph, tag
 	Closers int
+	// Pre: "" the layout holds collectable content and has NOT been closed since (modified);
+	// "closed:<graph>:<tag>" that image was copied in and the layout closed (unmodified, the tag
+	// is up to date, so a copy of the same image onto it writes nothing)
+	Pre string
 }
 
 var concScens = []concScen{
-	{"disjoint", [][2]string{{"G1", "a"}, {"G10", "b"}}, 1},
-	{"overlap", [][2]string{{"G3", "a"}, {"G18", "b"}}, 1},
-	{"same-image", [][2]string{{"G3", "a"}, {"G3", "b"}}, 1},
-	{"nested", [][2]string{{"G4", "a"}, {"G15", "b"}}, 1},
-	{"disjoint-two-closers", [][2]string{{"G1", "a"}, {"G10", "b"}}, 2},
+	{"disjoint", [][2]string{{"G1", "a"}, {"G10", "b"}}, 1, ""},
+	{"overlap", [][2]string{{"G3", "a"}, {"G18", "b"}}, 1, ""},
+	{"same-image", [][2]string{{"G3", "a"}, {"G3", "b"}}, 1, ""},
+	{"nested", [][2]string{{"G4", "a"}, {"G15", "b"}}, 1, ""},
+	{"disjoint-two-closers", [][2]string{{"G1", "a"}, {"G10", "b"}}, 2, ""},
+	{"noop-copy-and-writer", [][2]string{{"G1", "a"}, {"G10", "b"}}, 1, "closed:G1:a"},
+	{"noop-copy-and-writer-no-closer", [][2]string{{"G1", "a"}, {"G3", "b"}}, 0, "closed:G1:a"},
+	{"two-writers-after-close", [][2]string{{"G10", "b"}, {"G4", "c"}}, 1, "closed:G1:a"},
 }
 
 func runConc(t *testing.T, c *explore.Ctx, sc concScen, scratch string, trace bool) explore.Result {
@@ -364,12 +371,24 @@ func runConc(t *testing.T, c *explore.Ctx, sc concScen, scratch string, trace bo
 	_, other := qsched.Bubble(t, func() {
 		w := newWorld(t, dir)
 		ctx := context.Background()
-		// the layout exists and holds something collectable, so that a Close has work to do
-		if err := w.do(ctx, Op{"copy", "G11", 0}); err != nil {
-			res = explore.Result{VKey: "harness", Violation: err.Error()}
-			return
+		if pre, ok := strings.CutPrefix(sc.Pre, "closed:"); ok {
+			gt := strings.SplitN(pre, ":", 2)
+			if err := w.rc.ImageCopy(ctx, w.src(gt[0]), w.base.SetTag(gt[1])); err != nil {
+				res = explore.Result{VKey: "harness", Violation: err.Error()}
+				return
+			}
+			if err := w.rc.Close(ctx, w.base); err != nil {
+				res = explore.Result{VKey: "harness", Violation: err.Error()}
+				return
+			}
+		} else {
+			// the layout exists and holds something collectable, so that a Close has work to do
+			if err := w.do(ctx, Op{"copy", "G11", 0}); err != nil {
+				res = explore.Result{VKey: "harness", Violation: err.Error()}
+				return
+			}
+			w.do(ctx, Op{"tagdel", "", 0})
 		}
-		w.do(ctx, Op{"tagdel", "", 0})
 		active := 0
 		var viol []string
 		var errs []string
